@@ -414,6 +414,40 @@ pub fn call(entry: &str, script: &ScriptJ, port: u16, retries: usize, gather: Op
     }
 }
 
+/// A row of the definitions table that speaks this protocol (the same exchange through the definition-driven entry point).
+pub fn row_of(entry: &str) -> Option<&'static str> {
+    Some(match entry {
+        "quake1" => "quake1",
+        "quake2" => "quake2",
+        "quake3" => "q3a",
+        "gs1" => "unrealtournament",
+        "gs2" => "hce",
+        "gs3" => "crysiswars",
+        "jc2m" => "jc2m",
+        "java" => "minecraftjava",
+        "bedrock" => "minecraftbedrock",
+        "legacy16" => "minecraftlegacy16",
+        "legacy14" => "minecraftlegacy14",
+        "legacyb18" => "minecraftlegacyb18",
+        "ffow" => "ffow",
+        "savage2" => "savage2",
+        "mindustry" => "mindustry",
+        _ => return None,
+    })
+}
+
+/// `call` through the definition-driven entry point of `row_of(entry)` (the caller's timeout settings, no extra settings).
+pub fn call_generic(id: &str, script: &ScriptJ, port: u16, retries: usize) -> CallRecord {
+    let game = gamedig::GAMES.get(id).expect("table row");
+    let ip = addr(port).ip();
+    run_call_json(script, DEFAULT_MAX_OPS, move || {
+        match gamedig::query_with_timeout_and_extra_settings(game, &ip, Some(port), timeouts(retries), None) {
+            Ok(r) => Ok(crate::valve::strip_enum_wrappers(&serde_json::to_value(r.as_original()).unwrap()).clone()),
+            Err(e) => Err(format!("{:?}", e.kind)),
+        }
+    })
+}
+
 pub fn property_of(entry: &str) -> &'static str {
     match entry {
         "quake1" | "quake2" | "quake3" => "C05",
